@@ -50,17 +50,22 @@ class LazyRef(dict):
         self.twice = []
         self.seconds = 0.0
 
-    def ensure(self, ops):
+    def ensure(self, ops, count=True):
+        """count=False: only the observable is needed (ops that run without event delivery: long histories, S3); the
+        I3 budget of such an op, should it ever run under events, is derived from the corpus hint instead."""
         import time
         missing = {}
         for op in ops:
             k = O.op_key(op)
-            if k not in self and k not in missing:
+            if k not in missing and (k not in self or (count and self[k].get('ev') is None)):
                 missing[k] = op
         if not missing:
             return []
         t = time.time()
-        r, tw = compute(self.pool, list(missing.values()))
+        r, tw = compute(self.pool, list(missing.values()), count=count)
+        if not count:
+            for v in r.values():
+                v['ev'] = None
         self.update(r)
         self.twice.extend(tw)
         self.seconds += time.time() - t
